@@ -116,6 +116,12 @@ func Canon(v Val) any {
 			return map[string]any{"Title": "Ms", "Extra": true, "Num": int64(9)}
 		}
 		return map[string]any{"Num": "n"}
+	case "intmap":
+		out := map[string]any{}
+		for i := range v.K {
+			out[fmt.Sprint(i+1)] = v.V[i].S
+		}
+		return out
 	case "deep":
 		var cur any = map[string]any{"leaf": v.I}
 		for i := int64(0); i < v.I; i++ {
@@ -300,6 +306,11 @@ func (c CallSpec) build() (string, *Val) {
 		return "{{ " + recv + "." + c.Name + "(" + strings.Join(args, ", ") + ")." + c.Name + "() }}", data
 	}
 	return "{{ " + recv + "." + c.Name + "(" + strings.Join(args, ", ") + ") }}", data
+}
+
+// callPanics: the call passes PanicArg as its last argument.
+func callPanics(c CallSpec) bool {
+	return len(c.Args) > 0 && len(c.Loop) == 0 && !c.Chain && c.Args[len(c.Args)-1].T == "str" && c.Args[len(c.Args)-1].S == PanicArg
 }
 
 func typeConst(recv string) string {
@@ -556,6 +567,19 @@ func c20Check(sc *Scenario, acc *Acc) (*c20Fail, int) {
 			acc.Evals++
 			acc.Steps += o.Steps
 		}
+		if o.Kind == "panic" && op.Call != nil && callPanics(*op.Call) && strings.Contains(o.Err, PanicMsg) {
+			// the user's own function panicked, as asked; the panic reaches the caller, who recovers.
+			// It must have been the right function, if one is registered and no built-in shadows it.
+			if fn, registered := model[op.Call.Recv+"/"+op.Call.Name]; registered {
+				if nc := w.Rec.Calls[ncalls:]; len(nc) != 1 || nc[0].Fn != fn {
+					return &c20Fail{"wrong-function", "the call reaches another function than the first one registered for (type, name)", fmt.Sprint("fn", fn), fmt.Sprint(len(nc), " invocation(s)")}, i
+				}
+			}
+			if acc != nil {
+				acc.Fault("custom-function-panics-caller-recovers", 1)
+			}
+			continue
+		}
 		if o.Kind == "panic" || o.Kind == "abort" {
 			return &c20Fail{"op-" + o.Kind, "an operation of the history panics or hangs", "", o.Short()}, i
 		}
@@ -725,12 +749,29 @@ func (p c20) violation(sc *Scenario, f *c20Fail, at int) *Violation {
 			pat = append(pat, "reg")
 		case o.Kind == "newtemplate":
 			pat = append(pat, "load")
+		case o.Call != nil && callPanics(*o.Call):
+			pat = append(pat, "pcall") // the user's function panics (through a template or not)
 		case o.Call != nil && o.Call.ViaTpl:
 			pat = append(pat, "tcall")
 		default:
 			pat = append(pat, "call")
 		}
 	}
+	// long runs of the same kind: the exact count is a threshold of the defect, not part of its identity
+	var comp []string
+	for i := 0; i < len(pat); {
+		j := i
+		for j < len(pat) && pat[j] == pat[i] {
+			j++
+		}
+		if j-i >= 8 {
+			comp = append(comp, pat[i]+"*many")
+		} else {
+			comp = append(comp, pat[i:j]...)
+		}
+		i = j
+	}
+	pat = comp
 	last := cur.Ops[len(cur.Ops)-1]
 	typ := last.Recv
 	if last.Call != nil {
@@ -923,6 +964,31 @@ func (p c20) Run(seed uint64, run int, tier string, acc *Acc) *Violation {
 		}
 		return first
 	}
+	if run%50 == 7 {
+		// a long life with failing user functions: a registered function panics 130 times (the caller
+		// recovers each time), through EvaluateString and through a Template; afterwards every
+		// registered function must still be callable and an unregistered one must still be reported
+		var ops []Op
+		typ := Pick(r, c20Types)
+		other := Pick(r, c20Types)
+		ops = append(ops, Op{Kind: "register", Recv: typ, Name: "boom", Fn: r.Intn(8)}, Op{Kind: "register", Recv: other, Name: "calm", Fn: r.Intn(8)})
+		via := r.Chance(50)
+		if via {
+			ops = append(ops, Op{Kind: "newtemplate", Cfg: c20Cfg()})
+		}
+		bad := CallSpec{Recv: typ, Name: "boom", RecvVal: genRecv(r, typ), RecvLit: r.Chance(50), Args: []Val{VInt(1), VStr(PanicArg)}, ArgLit: []bool{true, r.Chance(50)}}
+		for i := 0; i < 130; i++ {
+			c := bad
+			c.ViaTpl = via && i%2 == 1
+			ops = append(ops, callOp(len(ops), c))
+		}
+		for i := 0; i < 4; i++ {
+			ops = append(ops, callOp(len(ops), genCall(r, typ, "boom", via && i%2 == 0)), callOp(len(ops), genCall(r, other, "calm", via && i%2 == 1)))
+		}
+		ops = append(ops, callOp(len(ops), genCall(r, typ, "never", false)))
+		acc.Probe("histories-with-130-panicking-calls", 1)
+		return p.runHistory(seed, run, ops, acc)
+	}
 	// random history
 	n := r.Range(3, 20)
 	var ops []Op
@@ -942,7 +1008,12 @@ func (p c20) Run(seed uint64, run int, tier string, acc *Acc) *Violation {
 			ops = append(ops, Op{Kind: "newtemplate", Cfg: &Cfg{Dir: Pick(r, []string{"no-such-dir", "badtpl"}), Ext: ".tw"}})
 		default:
 			via := loaded && r.Chance(40)
-			ops = append(ops, callOp(len(ops), genCall(r, typ, name, via)))
+			c := genCall(r, typ, name, via)
+			if r.Chance(6) && len(c.Loop) == 0 && !c.Chain && !c.Site {
+				c.Args = append(c.Args, VStr(PanicArg))
+				c.ArgLit = append(c.ArgLit, r.Chance(50))
+			}
+			ops = append(ops, callOp(len(ops), c))
 		}
 	}
 	if run%61 == 1 {
